@@ -273,7 +273,8 @@ def l_trace(F, R):
         if ke == kd:
             bad = []
             for i, ((k1, f1), (k2, f2)) in enumerate(zip(E, D)):
-                if f1 is not None and f2 is not None and not str(f1).startswith("$it") and f1 != f2:
+                if f1 is not None and f2 is not None and not str(f1).startswith("$it") and f1 != f2 and \
+                        not (str(f2).startswith(str(f1) + ".") or str(f1).startswith(str(f2) + ".")):
                     bad.append("item %d (%s): written from `%s`, read into `%s`" % (i + 1, k1 if not isinstance(k1, tuple) else "list", f1, f2))
             R.check(not bad, "L-trace", "%s/fields" % key,
                     "%s: encoder and decoder disagree on which field an item belongs to: %s" % (short, "; ".join(bad[:3])), where=dec)
